@@ -28,6 +28,8 @@ enum Mutation {
     Prefix(usize),
     /// write `val` as `width`-byte little endian at `off`
     Subst { off: usize, width: u8, val: u64 },
+    /// two fields at once (a size together with a count, a position together with a length): 32-bit values
+    Subst2 { off1: usize, val1: u32, off2: usize, val2: u32 },
     /// same, but inside an encrypted MPQ table region: decrypt [start..end) with `key`, substitute, re-encrypt
     TableSubst { start: usize, end: usize, key: u32, off: usize, width: u8, val: u64 },
     /// generic chunk operations on (magic,u32 size,payload)* files
@@ -112,6 +114,20 @@ fn mpq_seeds() -> Vec<seeds::Seed> {
             ],
         };
         out.push(seeds::Seed { format: "mpq", name: format!("ref-sector-crc-{sectors}sectors-{class:?}-short{drop}"), bytes: spec.write_malformed(drop) });
+    }
+    // archives behind a user data header (MPQ\x1B: user data size, offset of the archive header, size of this
+    // header), at a sector boundary and inside the first sector
+    if let Some(first) = out.first().map(|s| s.bytes.clone()) {
+        for (label, header_offset) in [("sector", 512u32), ("three-sectors", 1536), ("inside-first-sector", 0x40)] {
+            let mut b = vec![];
+            b.extend_from_slice(b"MPQ\x1B");
+            b.extend_from_slice(&0x20u32.to_le_bytes());
+            b.extend_from_slice(&header_offset.to_le_bytes());
+            b.extend_from_slice(&16u32.to_le_bytes());
+            b.resize(header_offset as usize, 0xA5);
+            b.extend_from_slice(&first);
+            out.push(seeds::Seed { format: "mpq", name: format!("user-data-header-{label}"), bytes: b });
+        }
     }
     // one archive whose (attributes) file carries CRC32|PATCH_BIT: written by hand and handed to the builder
     // as an external attributes file; the block count the reader will use (files + special files) is found
@@ -307,6 +323,10 @@ fn apply(seed: &[u8], m: &Mutation) -> Vec<u8> {
         Mutation::None => {}
         Mutation::Prefix(n) => b.truncate(*n),
         Mutation::Subst { off, width, val } => put(&mut b, *off, *width, *val),
+        Mutation::Subst2 { off1, val1, off2, val2 } => {
+            put(&mut b, *off1, 4, *val1 as u64);
+            put(&mut b, *off2, 4, *val2 as u64);
+        }
         Mutation::TableSubst { start, end, key, off, width, val } => {
             let (s, e) = (*start, (*end).min(b.len()));
             if s < e {
@@ -465,6 +485,24 @@ fn mutations_for(seed: &seeds::Seed, idx: usize, tier: Tier, rng_seed: u64) -> V
                     continue;
                 }
                 out.push(Case { format: fmt.clone(), seed: idx, m: Mutation::Subst { off, width: w, val: *v } });
+            }
+        }
+    }
+    // (ii-a) two header fields at once: every ordered pair of the first 12 dwords, one set to a small value and
+    // the other to a large one (a zero record size together with a huge record count, a position with a length …)
+    {
+        let slots = (b.len() / 4).min(if quick { 10 } else { 16 });
+        for i in 0..slots {
+            for j in 0..slots {
+                if i == j {
+                    continue;
+                }
+                for (v1, v2) in [(0u32, 4_000_000u32), (0, 0x7FFF_FFFF), (1, 0xFFFF_FFFF), (0xFFFF_FFFF, 0xFFFF_FFFF)] {
+                    if quick && v2 == 0xFFFF_FFFF && (i + j) % 2 == 1 {
+                        continue;
+                    }
+                    out.push(Case { format: fmt.clone(), seed: idx, m: Mutation::Subst2 { off1: 4 * i, val1: v1, off2: 4 * j, val2: v2 } });
+                }
             }
         }
     }
@@ -763,6 +801,7 @@ fn main() {
             Mutation::None => "intact",
             Mutation::Prefix(_) => "prefix",
             Mutation::Subst { .. } => "subst",
+            Mutation::Subst2 { .. } => "subst2",
             Mutation::TableSubst { .. } => "table-subst",
             Mutation::ChunkDelete(_) | Mutation::ChunkDup(_) | Mutation::ChunkSwap(_) => "chunk-op",
             Mutation::ChunkSize { .. } => "chunk-size",
